@@ -145,6 +145,15 @@ def main():
             r = None
         if r:
             done(**r)
+    if p.get("obligation") == "__bounded__" or "_get_single" in p.get("obligation", ""):
+        # "verifies the certificate pin on every hop": the hops of a chain are _get_single calls on ONE client object
+        try:
+            from replay import session_bank
+            r = session_bank.bank("C03", ("get",))
+        except ImportError:
+            r = {}
+        if r.get("confirmed"):
+            done(**r)
     for graph, start, mx, what in bank():
         out, log = run_graph(graph, start, mx)
         bad = judge(graph, start, mx, out, log)
